@@ -156,6 +156,12 @@ func (g *GoBackNConn) Send(data []byte) error {
 	default:
 	}
 
+	// The packets we queue below are kept, and serialized again for every
+	// retransmission, until they are acknowledged - which can be long after
+	// this call has returned. So they must not share memory with the
+	// caller's slice, which the caller is free to reuse by then.
+	data = append([]byte(nil), data...)
+
 	ticker := time.NewTimer(g.timeoutManager.GetSendTimeout())
 	defer ticker.Stop()
 
